@@ -87,7 +87,7 @@ def mk_ctrl(kind: str, t0: float):
     return ctrl
 
 
-def run_case(cid: str, eq, ctrl, params, start, steps: int, limit: float, guard_s: int = 120) -> dict:
+def run_case(cid: str, eq, ctrl, params, start, steps: int, limit: float, guard_s: int = 900) -> dict:
     from moptipyapps.dynamic_control import ode
     if ode._VERIF_EVENTS is None:
         raise core.MachineryError("run_ode hook not enabled")
@@ -235,7 +235,7 @@ def run(prop: str, tier: str, seed: int) -> int:
         steps = rng.choice([10, 50])
         limit = rng.choice([1.0, 5.0, 20.0])
         c = run_case(f"bundled-{k}-{sysm.name}-{ctl.name}", sysm.equations, ctl.controller, params, start, steps,
-                     limit, guard_s=300)
+                     limit, guard_s=1800)
         if sysm.control_dims == 1:
             cases.append(c)
             rep.family("bundled-systems", 1, 1)
